@@ -22,6 +22,7 @@ from . import components
 from ..codegen.irdag import SelectionGraphBuilder, prepare_function_info
 from ..codegen.irdag import FunctionInfo
 from ..codegen.dagsplit import DagSplitter
+from ..codegen.codegen import CodeGenerator
 from ..binutils import debuginfo
 from .arch import WasmArchitecture
 from .arch import I32Register, I64Register, F32Register, F64Register
@@ -246,6 +247,10 @@ class IrToWasmCompiler:
         self.logger.debug("Generating wasm for %s", ir_function)
 
         # Generate function code:
+        # The copies which implement phi nodes need a block of their own
+        # on the edges leaving a conditional jump:
+        CodeGenerator.split_critical_edges(ir_function)
+
         # Create a selection graph, so that we have expression trees
         arch = WasmArchitecture()
         sdagb = SelectionGraphBuilder(arch)
